@@ -357,6 +357,34 @@ class C08Machine(RecordingMixin, RuleBasedStateMachine):
         if c._get_circuit_spec():
             self.nontrivial = True
 
+    def do_derive_rewrite(self, prog, how, which, first):
+        """A circuit rich in mode swaps; a second circuit is derived from it (copy / sum with an empty circuit / added
+        ungrouped to an empty parent); then one of the two is rewritten in place, then the other. Components may be
+        shared between them behind the scenes - whoever is rewritten, the other one must stay what it was."""
+        import lightworks as lw
+        if len(self.circs) > 4:
+            del self.circs[:2]
+            self.arg_uses = {}
+        c = self.guarded("build", lambda: build_real(prog))[0]
+        self.circs.append(c)
+        k = len(self.circs) - 1
+        n = c.n_modes
+        if how == "copy":
+            d = self.guarded("copy", lambda: c.copy())[0]
+        elif how == "plus-right":
+            d = self.guarded("c + Circuit(n)", lambda: c + lw.Circuit(n))[0]
+        elif how == "plus-left":
+            d = self.guarded("Circuit(n) + c", lambda: lw.Circuit(n) + c)[0]
+        else:
+            d = lw.Circuit(n + 1)
+            self.guarded("parent.add(c, 1)", lambda: d.add(c, 1, group=(how == "add-grouped")))
+        self.circs.append(d)
+        order = [k + 1, k] if first else [k, k + 1]
+        for idx in order:
+            self.do_rewrite(idx, which)
+        self.info_labels.add(f"derive:{how}+{which}")
+        self.nontrivial = True
+
     def do_maybe(self, i, j, kind, a, b):
         """Calls whose arguments are unusual but which the library may accept or refuse as it sees fit. They are made
         on a copy of a pooled circuit; whichever way it goes, nobody else may change, and if the call raises - any
@@ -528,6 +556,12 @@ class C08Machine(RecordingMixin, RuleBasedStateMachine):
         a=st.integers(0, 5), b=st.integers(0, 5))
     def r_reject(self, i, kind, a, b):
         self.step("reject", i=i, kind=kind, a=a, b=b)
+
+    @rule(prog=gen.swap_heavy_program(min_n=3, max_n=4, max_ops=6),
+          how=st.sampled_from(["copy", "copy", "plus-right", "plus-left", "add-ungrouped", "add-grouped"]),
+          which=st.sampled_from(["compress", "compress", "unpack", "nonadj"]), first=st.booleans())
+    def r_derive_rewrite(self, prog, how, which, first):
+        self.step("derive_rewrite", prog=prog, how=how, which=which, first=first)
 
     @rule(i=IDX, j=IDX, kind=st.sampled_from([
         "add-odd-name", "add-odd-name-ungrouped", "add-odd-mode", "add-odd-group-flag", "herald-odd-mode",
